@@ -259,6 +259,8 @@ def generate(rng, k):
         lang_op["sub"] = "lang"
         lang_op["big"] = True
     all_ascii = all(op["content"].isascii() and op["path"].isascii() for op in ops if op["op"] in ("file", "otherfile"))
+    if k.get("stock_settings"):
+        all_ascii = False      # the stock settings files themselves are not ASCII, and lian reads them with the locale's encoding too
     for j in range(k["n_variants"] - 1):
         if j == 0:
             fd = DIM_CYCLE[ri % len(DIM_CYCLE)]
